@@ -117,24 +117,29 @@ def fsAt (l : List Event) (n : Nat) : FS := fsAfter (l.take n)
 /-! ## The trace -/
 
 inductive Version
-  | repaired | asIs
+  | repaired   -- what the property demands (all fixes of `fixes/C19-*.patch`)
+  | asIs       -- the originally pinned tree (findings F-C19, F-C19b, F-C19c)
+  | keyFixed   -- the tree after the F-C19/F-C19b repair only: F-C19c (bottom-up + re-used chunks) remains
   deriving DecidableEq, Repr
 
 /-- Is the key blank in what `__init__` saves? -/
 def blankInit : Version → Bool
   | .repaired => true
+  | .keyFixed => true
   | .asIs => false          -- `OmegaConf.save(config=self.config, …)` before any masking
 
 /-- Is the key blank in what `train()` saves (config files and the config inside checkpoints)? -/
 def blankTrain (v : Version) (f : Flags) : Bool :=
   match v with
   | .repaired => true
+  | .keyFixed => true
   | .asIs => f.wandb        -- `self.config.trainer_config.wandb.api_key = ""` only `if use_wandb`
 
 /-- Does `wandb.run_id := …` in the `finally` block raise? -/
 def runIdRaises (v : Version) (f : Flags) : Bool :=
   match v with
   | .repaired => false
+  | .keyFixed => false
   | .asIs => f.wandb && f.structured   -- `Key 'run_id' not in 'WandBConfig'`
 
 def cfg (w : Which) (blank runId : Bool) : Content := .config w blank runId
@@ -208,9 +213,19 @@ def initPhaseR (v : Version) : List Event :=
   [.write .initialCfg (cfg .supplied (blankInit v) false),
    .write .trainingCfg (cfg .supplied (blankInit v) false)]
 
-/-- The trace of run 2 (`use_existing_chunks = True`; only meaningful for `f.fw = .npChunks`). -/
+/-- Does building the datasets of run 2 raise?  `BottomUpDataset.__init__` reads
+`self.labels.skeletons[0].edge_inds`, but with `use_existing_chunks` the trainer passes
+`labels=None` (finding F-C19c; repaired by passing the trainer's `edge_inds`). -/
+def reuseRaises (v : Version) (f : Flags) : Bool :=
+  match v with
+  | .repaired => false
+  | _ => f.model == .bottomup
+
+/-- The trace of run 2 (`use_existing_chunks = True`; only meaningful for `f.fw = .npChunks`).
+The data loaders are built *before* the `try … finally`, so a raise there skips the `finally` block. -/
 def traceR (v : Version) (f : Flags) (rounds : List Bool) : List Event :=
-  initPhaseR v ++ resavePhase v f ++ fitPhase v f rounds ++ finallyPhase v f
+  initPhaseR v ++ resavePhase v f ++
+    (if reuseRaises v f then [.raise] else fitPhase v f rounds ++ finallyPhase v f)
 
 /-- File system when run 2 starts, given run 1. -/
 def reuseStart (v : Version) (f1 : Flags) (r1 : List Bool) : FS :=
